@@ -8,9 +8,11 @@ cd "$wt" || exit 2
 git checkout -q -- . ; rm -f tests/demo.rs
 feat=""; grep -q "verif" "$d/demo.rs" && feat="--features verif"
 cp "$d/demo.rs" tests/demo.rs
-without=$(cargo test --offline $feat --test demo -j8 2>&1 | grep -E "^test result" | tail -1)
+without=$(timeout 900 cargo test --offline $feat --test demo -j8 2>&1 | grep -E "^test result" | tail -1)
+pkill -f 'wt/scratch/target/debug/deps/dem[o]-' 2>/dev/null
 git apply "$d/patch.diff" || { echo "CONFIRM $d: patch does not apply"; exit 1; }
-with=$(cargo test --offline $feat --test demo -j8 2>&1 | grep -E "^test result|error(\[|:)" | tail -1)
+with=$(timeout 900 cargo test --offline $feat --test demo -j8 2>&1 | grep -E "^test result|error(\[|:)" | tail -1)
+pkill -f 'wt/scratch/target/debug/deps/dem[o]-' 2>/dev/null
 rm -f tests/demo.rs
 log=$(mktemp /tmp/confirm.XXXXXX)
 cargo test --workspace --no-fail-fast --offline -j8 >"$log" 2>&1
